@@ -10,6 +10,7 @@ import (
 	"errors"
 	"fmt"
 	"os"
+	"regexp"
 	"sort"
 	"strings"
 	"sync"
@@ -479,9 +480,45 @@ func Observe(rd ReadAPI, p *Pool) string {
 			if has || v != 0 || n != 0 {
 				fmt.Fprintf(&sb, "%s %s: has=%v route#%d routes=%d#%d\n", m, pt, has, v, n, rv)
 			}
+			// differential: the iterator's Reverse and the reader's own Reverse are two entry points
+			// onto the same state and must agree (a disagreement adds a line no expectation contains)
+			host, path := instantiate(pt)
+			r1, tsr1 := rd.Reverse(m, host, path)
+			var r2 *fox.Route
+			n2 := 0
+			for _, r := range it.Reverse(seq1(m), host, path) {
+				r2 = r
+				n2++
+			}
+			if tsr1 && r1 != nil && !r1.IgnoreTrailingSlashEnabled() && !r1.RedirectTrailingSlashEnabled() {
+				r1 = nil // Iter.Reverse yields slash-adjusted matches only for routes that act on them
+			}
+			if r1 != r2 || n2 > 1 {
+				fmt.Fprintf(&sb, "%s %s%s: Reverse=%s#%d but Iter.Reverse=%s#%d (%d results)\n", m, host, path, patOf(r1), fx.RouteVer(r1), patOf(r2), fx.RouteVer(r2), n2)
+			}
 		}
 	}
 	return sb.String()
+}
+
+func patOf(r *fox.Route) string {
+	if r == nil {
+		return "-"
+	}
+	return r.Pattern()
+}
+
+var wildcardRe = regexp.MustCompile(`\*?\{[^}]*\}`)
+
+// instantiate turns a pattern into a (host, path) request that matches it: every wildcard is
+// replaced by "a".
+func instantiate(pattern string) (host, path string) {
+	s := wildcardRe.ReplaceAllString(pattern, "a")
+	i := strings.IndexByte(s, '/')
+	if i < 0 {
+		return s, "/"
+	}
+	return s[:i], s[i:]
 }
 
 func seq1(m string) func(func(string) bool) {
